@@ -288,6 +288,12 @@ class Interp:
             if isinstance(e.value, ast.Attribute) and isinstance(e.value.value, ast.Name) and e.value.value.id == "self" and isinstance(e.slice, ast.Name) \
                     and i.sym is not None and not all_at(i) and not all_at(b):
                 return V(at={i.sym}, kinds={"logw"}, none=False)
+            # ... the same with a composite exact key (beta, <configuration attributes / constants>): equal keys have equal beta
+            if isinstance(e.value, ast.Attribute) and isinstance(e.value.value, ast.Name) and e.value.value.id == "self" and isinstance(e.slice, ast.Name) \
+                    and i.tup is not None and not all_at(i) and not all_at(b):
+                var = [x for x in i.tup if not (isinstance(x.sym, tuple) and x.sym and x.sym[0] == "attr") and x.none is not True]
+                if len(var) == 1 and var[0].sym is not None and var[0].tup is None:
+                    return V(at={var[0].sym}, kinds={"logw"}, none=False)
             return V(at=all_at(b) | all_at(i), kinds=all_kinds(b) | all_kinds(i), none=False)
         if isinstance(e, ast.IfExp):
             ev(e.test)
